@@ -3,18 +3,18 @@ set -e
 . $MC/par.sh
 CF="-O1 -g -fsanitize=address -fno-omit-frame-pointer -I$REPO -I$MC"
 par clang -c $CF $REPO/igris/util/hexascii.c -o $BUILD/hexascii.o
-par clang++ -std=c++17 -c $CF $REPO/igris/string/hexascii_string.cpp -o $BUILD/hexstr.o
-par clang++ -std=c++17 -c $CF $REPO/igris/util/base64.cpp -o $BUILD/base64.o
-par clang++ -std=c++17 -c $CF $VERIF/harness/c18/c18_codecs.cpp -o $BUILD/h.o
-par clang++ -std=c++17 -c $CF $VERIF/harness/c18/c18_early.cpp -o $BUILD/early.o
-par clang++ -std=c++17 -c $CF $VERIF/harness/c18/c18_late.cpp -o $BUILD/late.o
-par clang++ -std=c++17 -O2 -c -I$MC $MC/mc.cpp -o $BUILD/mc.o
+par clang++ -std=c++20 -c $CF $REPO/igris/string/hexascii_string.cpp -o $BUILD/hexstr.o
+par clang++ -std=c++20 -c $CF $REPO/igris/util/base64.cpp -o $BUILD/base64.o
+par clang++ -std=c++20 -c $CF $VERIF/harness/c18/c18_codecs.cpp -o $BUILD/h.o
+par clang++ -std=c++20 -c $CF $VERIF/harness/c18/c18_early.cpp -o $BUILD/early.o
+par clang++ -std=c++20 -c $CF $VERIF/harness/c18/c18_late.cpp -o $BUILD/late.o
+par clang++ -std=c++20 -O2 -c -I$MC $MC/mc.cpp -o $BUILD/mc.o
 # variant build: the other compiler, -O2, assertions compiled out, same harness TU with -DC18_VARIANT
 VF="-O2 -g -DNDEBUG -fsanitize=address -fno-omit-frame-pointer -I$REPO -I$MC"
 par gcc -c $VF $REPO/igris/util/hexascii.c -o $BUILD/v_hexascii.o
-par g++ -std=c++17 -c $VF $REPO/igris/string/hexascii_string.cpp -o $BUILD/v_hexstr.o
-par g++ -std=c++17 -c $VF $REPO/igris/util/base64.cpp -o $BUILD/v_base64.o
-par g++ -std=c++17 -c $VF -DC18_VARIANT $VERIF/harness/c18/c18_codecs.cpp -o $BUILD/v_h.o
+par g++ -std=c++20 -c $VF $REPO/igris/string/hexascii_string.cpp -o $BUILD/v_hexstr.o
+par g++ -std=c++20 -c $VF $REPO/igris/util/base64.cpp -o $BUILD/v_base64.o
+par g++ -std=c++20 -c $VF -DC18_VARIANT $VERIF/harness/c18/c18_codecs.cpp -o $BUILD/v_h.o
 parwait
 par clang++ -fsanitize=address $BUILD/h.o $BUILD/hexascii.o $BUILD/hexstr.o $BUILD/base64.o $BUILD/mc.o -o $BUILD/c18
 # static-initialisation probe: early.o FIRST (its global constructor calls the codecs), the library objects
